@@ -258,6 +258,8 @@ class BuiltinModel:
                 # directly from Quantity
                 return z3.Or(cls_of == c.t, c.t == M.C_QUANTITY)
             return False
+        if isinstance(c, VFunc) and c.name in TYPE_FUNCS:
+            c = VClass(c.name)
         if not isinstance(c, VClass):
             raise Unsupported(f"isinstance against {c!r}")
         n = c.name
@@ -341,6 +343,8 @@ class BuiltinModel:
         if isinstance(v, VDate):
             if name in ("year", "month", "day"):
                 return VInt({"year": v.y, "month": v.m, "day": v.d}[name])
+        if name == "__class__":
+            return self.bi_type(v)
         if isinstance(v, (VList, VStr, VDictLit, VTuple, VGen)):
             return VFunc(f"{type(v).__name__}.{name}", bound=v)
         if isinstance(v, VExc):
@@ -457,6 +461,8 @@ class BuiltinModel:
         if isinstance(k, VClass):
             return "class:" + k.name
         if isinstance(k, VFunc):
+            if k.name in TYPE_FUNCS:
+                return "class:" + k.name
             return "func:" + k.name
         if isinstance(k, VInt):
             s = z3.simplify(k.t)
@@ -642,7 +648,7 @@ class BuiltinModel:
         if isinstance(v, (VTuple, VList)):
             return iter(list(v.items))
         if isinstance(v, VGen):
-            return v.it()
+            return v.iterator()
         if isinstance(v, VDictLit):
             raise Unsupported("iteration over dict literal")
         if isinstance(v, VObj) and v.klass.startswith("List:"):
@@ -736,6 +742,8 @@ class BuiltinModel:
         return VOpaque(("iter", self.iterate(v)))
 
     def bi_next(self, it, *dflt):
+        if isinstance(it, VGen):
+            it = VOpaque(("iter", it.iterator()))
         if isinstance(it, VOpaque) and isinstance(it.what, tuple) and \
                 it.what[0] == "iter":
             try:
@@ -859,12 +867,14 @@ class BuiltinModel:
         if isinstance(v, VObj):
             return self.I.call_method(v, "__round__", [] if n is None else [n])
         if isinstance(v, VRat):
-            self.ledger("A2: round(Decimal|Fraction, n) rounds half-even to n digits")
+            self.ledger("A2: round(x, n): decimalfp.Decimal rounds to n "
+                        "digits with the default mode, Fraction half-even")
             nd = n.t if isinstance(n, VInt) else z3.IntVal(0)
-            k = self.path.fresh("rnd", z3.IntSort())
             scale = S.p10(nd)
             S.p10_facts(self.path, nd)
-            self.path.assume(S.round_rel(v.t * scale, z3.IntVal(MODE_ID["ROUND_HALF_EVEN"]), k))
+            mode = S.round_builtin_mode(v.tag)
+            k = S.rnd(v.t * scale, mode)
+            self.path.assume(S.rnd_fact(v.t * scale, mode))
             if n is None:
                 return VInt(k)
             return VRat(z3.ToReal(k) / scale, v.tag)
@@ -938,8 +948,19 @@ class BuiltinModel:
         self.ledger("A2: get_dflt_rounding_mode() returns the configured mode")
         return VInt(S.DFLT_MODE, enum="ROUNDING")
 
-    def bi_object___new__(self, *a, **k):
-        raise Unsupported("object.__new__ outside a modelled constructor")
+    def bi_object___new__(self, cls=None, *a, **k):
+        if isinstance(cls, VObj) and cls.klass == "QtyCls":
+            # raw instance of a quantity class; its slots are unset
+            q = self.I.alloc("Qty", "qty")
+            self.heap.set("Qty.__class__", q.t, cls.t)
+            return q
+        if isinstance(cls, VClass) and cls.name in ("Unit", "Currency"):
+            u = self.I.alloc("Unit", "unit")
+            self.init_unset(u)
+            self.heap.set("Unit.$is_currency", u.t,
+                          z3.BoolVal(cls.name == "Currency"))
+            return u
+        raise Unsupported(f"object.__new__({cls!r})")
 
     def bi_object___init__(self, *a, **k):
         return NONE
@@ -1005,8 +1026,8 @@ class BuiltinModel:
             self.I.raise_("ZeroDivisionError")
         if not self.path.branch(z3.And(mode >= 0, mode < 8)):
             self.I.raise_("ValueError")
-        k = self.path.fresh("qk", z3.IntSort())
-        self.path.assume(S.round_rel(x.t / q, mode, k))
+        k = S.rnd(x.t / q, mode)
+        self.path.assume(S.rnd_fact(x.t / q, mode))
         t = self.path.fresh("tag", z3.IntSort())
         self.path.assume(z3.Or(t == T_DEC, t == T_FRAC))
         return VRat(z3.ToReal(k) * q, t)
@@ -1199,8 +1220,12 @@ class BuiltinModel:
         xv = rv(x)
         scale = S.p10(prec.t)
         S.p10_facts(self.path, prec.t)
-        k = self.path.fresh("dk", z3.IntSort())
-        self.path.assume(S.round_rel(xv * scale, S.DFLT_MODE, k))
+        sp = z3.simplify(prec.t)
+        arg = xv if (z3.is_int_value(sp) and sp.as_long() == 0) else xv * scale
+        k = S.rnd(arg, S.DFLT_MODE)
+        self.path.assume(S.rnd_fact(arg, S.DFLT_MODE))
+        if z3.is_int_value(sp) and sp.as_long() == 0:
+            return VRat(z3.ToReal(k), z3.IntVal(T_DEC))
         return VRat(z3.ToReal(k) / scale, z3.IntVal(T_DEC))
 
     def new_Fraction(self, x=None, d=None):
@@ -1263,6 +1288,8 @@ class BuiltinModel:
             raise Unsupported("call of an opaque converter")
         return hook(conv, args)
 
+
+TYPE_FUNCS = {"float", "int", "str", "tuple", "list", "dict", "bool"}
 
 EXC_NAMES = {"BaseException", "Exception", "ArithmeticError", "LookupError",
              "ValueError", "TypeError", "AssertionError", "AttributeError",
